@@ -60,8 +60,9 @@ def run(tier, v):
     b = vlib.harness_build()
     d = vlib.scratch()
     rows_c, rows_t, validated, tstates, cstat, corrupted = pc.both(
-        v, PID, b, d, table, 3 if thorough else 1, "c03", 5000 if thorough else 300)
-    runs_t = sorted({r["run"] for r in rows_t})
+        v, PID, b, d, table, 3 if thorough else 1, "c03", 5000 if thorough else 300, hot=12 if thorough else 5)
+    hots = [r for r in rows_t if r["ev"] == "hot"]
+    runs_t = sorted({r["run"] for r in rows_t if r["ev"] != "hot"})
     extra = {}
     if thorough:
         # growth beyond the statement (DESIGN 9.1): Pool x Schedule x Waiter grain, design level + binding
@@ -80,6 +81,7 @@ def run(tier, v):
         "traces_validated_against_impl": validated,
         "trace_events": len(rows_c) + len(rows_t), "trace_states": tstates,
         "random_configurations": len(runs_t),
+        "high_contention_runs": len(hots), "high_contention_shots": sum(h["fired"] for h in hots),
         "runs_via_config_decoding": len([r for r in rows_t if r["ev"] == "conf" and "viaconf=true" in r["desc"]]),
         "runs_with_discards": len({r["run"] for r in rows_t if r["ev"] == "discard"}),
         "runs_out_of_ammo": len({r["run"] for r in rows_t if r["ev"] == "acq" and not r["ok"]}),
